@@ -53,12 +53,12 @@ package date
 //@ func NewPartition
 //@   requires period.Start != 0
 //@   ensures @span: result.span == period && result.interval == interval
-//@   ensures @once: interval == Once ==> len(result.periods) == 1 && result.periods[0] == period
+//@   ensures @once: interval == Once && period.Start <= period.End ==> len(result.periods) == 1 && result.periods[0] == period
 //@   ensures @wf: interval != Once ==> wfPeriods(result.periods, period, interval)
 //@   ensures @cover: interval != Once && period.Start <= period.End ==> len(result.periods) >= 1
 //@        && (last <= 0 ==> result.periods[0].Start == period.Start)
 //@        && (last > 0 ==> len(result.periods) <= last && (len(result.periods) < last ==> result.periods[0].Start == period.Start))
-//@   ensures @empty: interval != Once && period.End < period.Start ==> len(result.periods) == 0
+//@   ensures @empty: period.End < period.Start ==> len(result.periods) == 0
 //@   ensures @fresh: fresh(result.periods)
 //@   ensures @ascending: forall a int, b int :: {result.periods[a].End, result.periods[b].End} 0 <= a && a < b && b < len(result.periods) ==> result.periods[a].End < result.periods[b].End
 //@   loop 1 invariant forall a int, b int :: {periods[a].End, periods[b].End} 0 <= a && a < b && b < len(periods) ==> periods[a].End > periods[b].End
